@@ -986,7 +986,8 @@ Section TopNoPanic.
       destruct (_ && _); [discriminate|].
       assert (Hin : In c cands).
       { apply select_referral_in, sieve_in in Er. unfold mapping_cands, by_namespace in Er.
-        destruct (find_field "namespace" kvs); [|exact Er].
+        destruct (find_field "namespace" kvs) as [nsn|]; [|exact Er].
+        destruct (is_null nsn || String.eqb (node_value nsn) ""); [exact Er|].
         destruct (String.eqb _ totally_not_a_namespace); [destruct Er|].
         destruct (filter _ cands) eqn:EF; [apply filter_In in Er as [Er _]; exact Er|].
         rewrite <- EF in Er. apply filter_In in Er as [Er _]. exact Er. }
